@@ -106,12 +106,23 @@ Definition prop_case (c : case) : bool :=
 Definition has_empty (init : sr) (ops : list (sr * bool)) : bool :=
   is_empty init || existsb (fun o => is_empty (fst o)) ops.
 
+Fixpoint prune_junction (q : list sr) (h : Z) (keep : prio) : bool :=
+  match q with
+  | a :: ((b :: _) as rest) =>
+      ((re a =? h) && (rs b =? h) && prio_eqb (rp b) Ignored && negb (is_retained (Some keep) (rp a)))
+      || prune_junction rest h keep
+  | _ => false
+  end.
+
 Definition known_class (c : case) : N :=
   match c with
   | TreeSeq init ops _ => if has_empty init ops then 1%N else 0%N
   | QStep _ _ (OpRescan rs_ _) _ _ =>
       (* queue_rescans with an empty range reaches the same tree panic *)
       if existsb (fun r => fst r =? snd r) rs_ then 1%N else 0%N
+  | QStep _ pre (OpPrune h (Some keep)) _ _ =>
+      (* class 2: a pruned (non-retained) row ends exactly at the pruning height and the next stored row is Ignored *)
+      if prune_junction pre h keep then 2%N else 0%N
   | _ => 0%N
   end.
 
